@@ -28,6 +28,8 @@ type dumper struct {
 	seen    map[uintptr]int
 	regions []Region
 	wantReg bool
+	wantObj bool            // also record every heap object reached through a pointer, a non-byte slice or a map
+	objects []Region        // (Base, Len = Cap = size in octets)
 	skip    map[string]bool // field paths to skip (e.g. documented aliasing exceptions)
 }
 
@@ -56,6 +58,35 @@ func Regions(v interface{}, skip ...string) []Region {
 	}
 	d.walk(reflect.ValueOf(v), "")
 	return d.regions
+}
+
+// Objects returns every heap object reachable from v through pointers, slices (byte slices included) and maps,
+// as address ranges. Two values that own their data have disjoint object sets.
+func Objects(v interface{}, skip ...string) []Region {
+	d := &dumper{seen: map[uintptr]int{}, wantReg: true, wantObj: true, skip: map[string]bool{}}
+	for _, s := range skip {
+		d.skip[s] = true
+	}
+	d.walk(reflect.ValueOf(v), "")
+	out := d.objects
+	for _, r := range d.regions {
+		if r.Cap > 0 {
+			out = append(out, r)
+		}
+	}
+	return out
+}
+
+// Shared reports a pair of objects of a and b whose address ranges intersect.
+func Shared(a, b []Region) (Region, Region, bool) {
+	for _, x := range a {
+		for _, y := range b {
+			if x.Cap > 0 && y.Cap > 0 && x.Base < y.Base+uintptr(y.Cap) && y.Base < x.Base+uintptr(x.Cap) {
+				return x, y, true
+			}
+		}
+	}
+	return Region{}, Region{}, false
 }
 
 // Overlaps reports the first region that intersects [base, base+n) (by capacity: spare capacity counts).
@@ -111,6 +142,11 @@ func (d *dumper) walk(v reflect.Value, path string) {
 			return
 		}
 		d.seen[p] = len(d.seen) + 1
+		if d.wantObj {
+			if sz := int(v.Type().Elem().Size()); sz > 0 {
+				d.objects = append(d.objects, Region{Base: p, Len: sz, Cap: sz, Path: path})
+			}
+		}
 		fmt.Fprintf(&d.sb, "&p%d=", d.seen[p])
 		av := access(v)
 		if av.Type().Implements(binMarshaler) && av.CanInterface() && !d.wantReg {
@@ -155,6 +191,11 @@ func (d *dumper) walk(v reflect.Value, path string) {
 			fmt.Fprintf(&d.sb, "x%x", b)
 			return
 		}
+		if d.wantObj && v.Cap() > 0 {
+			if sz := int(v.Type().Elem().Size()) * v.Cap(); sz > 0 {
+				d.objects = append(d.objects, Region{Base: v.Pointer(), Len: sz, Cap: sz, Path: path + "[]"})
+			}
+		}
 		fmt.Fprintf(&d.sb, "[%d:", v.Len())
 		for i := 0; i < v.Len(); i++ {
 			d.walk(v.Index(i), fmt.Sprintf("%s[%d]", path, i))
@@ -180,6 +221,9 @@ func (d *dumper) walk(v reflect.Value, path string) {
 		if v.IsNil() {
 			d.sb.WriteString("map{}")
 			return
+		}
+		if d.wantObj {
+			d.objects = append(d.objects, Region{Base: v.Pointer(), Len: 8, Cap: 8, Path: path + "{map}"})
 		}
 		type kv struct {
 			k string
@@ -240,4 +284,70 @@ func SnapshotSelfTest() error {
 		return fmt.Errorf("state dump does not see unexported fields: %q %q %q", Dump(a), Dump(c), Dump(e))
 	}
 	return nil
+}
+
+// Scribble overwrites everything reachable from v (pass a pointer): integers are complemented, booleans flipped,
+// byte slices filled with 0xEE. It models a holder that edits (or reuses) a value it owns; nothing that someone
+// else still relies on may be reachable from that value.
+func Scribble(v interface{}) {
+	seen := map[uintptr]bool{}
+	var walk func(x reflect.Value)
+	walk = func(x reflect.Value) {
+		if !x.IsValid() {
+			return
+		}
+		x = unro(x)
+		switch x.Kind() {
+		case reflect.Ptr:
+			if x.IsNil() || seen[x.Pointer()] {
+				return
+			}
+			seen[x.Pointer()] = true
+			walk(x.Elem())
+		case reflect.Interface:
+			if !x.IsNil() {
+				walk(x.Elem())
+			}
+		case reflect.Struct:
+			for i := 0; i < x.NumField(); i++ {
+				f := x.Field(i)
+				if x.CanAddr() && !f.CanSet() {
+					f = reflect.NewAt(f.Type(), unsafe.Pointer(f.UnsafeAddr())).Elem()
+				}
+				walk(f)
+			}
+		case reflect.Slice:
+			if x.Type().Elem().Kind() == reflect.Uint8 {
+				for i := 0; i < x.Len(); i++ {
+					x.Index(i).SetUint(0xEE)
+				}
+				return
+			}
+			for i := 0; i < x.Len(); i++ {
+				walk(x.Index(i))
+			}
+		case reflect.Array:
+			for i := 0; i < x.Len(); i++ {
+				walk(x.Index(i))
+			}
+		case reflect.Map:
+			it := x.MapRange()
+			for it.Next() {
+				walk(it.Value())
+			}
+		case reflect.Int, reflect.Int8, reflect.Int16, reflect.Int32, reflect.Int64:
+			if x.CanSet() {
+				x.SetInt(^x.Int())
+			}
+		case reflect.Uint, reflect.Uint8, reflect.Uint16, reflect.Uint32, reflect.Uint64:
+			if x.CanSet() {
+				x.SetUint(^x.Uint() & (1<<(8*uint(x.Type().Size())) - 1))
+			}
+		case reflect.Bool:
+			if x.CanSet() {
+				x.SetBool(!x.Bool())
+			}
+		}
+	}
+	walk(reflect.ValueOf(v))
 }
